@@ -181,6 +181,18 @@ def overflow_stream():
     return out
 
 
+def endless_loop_stream():
+    """loops whose condition never becomes false: every pass counts against the iteration limit however it ends (falling
+    off the end of the body, CONTINUE, CONTINUE / BREAK inside an IF or an inner loop), so compile returns"""
+    bodies = ["", "c", "CONTINUE", "IF(1){CONTINUE}", "IF(1){CONTINUE} c", "c CONTINUE d", "IF(0){BREAK} CONTINUE", "IF(1){ IF(1){ CONTINUE } }",
+              "Int Q=1; CONTINUE", "FOR(INT J=0;J<2;J++){ CONTINUE }", "FOR(INT J=0;J<2;J++){ BREAK } CONTINUE", "PRINT(1) CONTINUE"]
+    out = []
+    for b in bodies:
+        out += ["WHILE(1){ %s } d" % b, "FOR(;;){ %s } d" % b, "INT I=0; FOR(I=0;1;I++){ %s } d" % b, "INT I=0; WHILE(I<10){ IF(I=5){CONTINUE} I++; %s } d" % b,
+                "FUNCTION F(){ WHILE(1){ %s } } F d" % b]
+    return out
+
+
 def long_log_stream(rng, quick):
     """logs that cross the 4096-character limit with characters of 1, 2, 3 and 4 UTF-8 bytes, at every alignment of the cut"""
     out = []
@@ -195,7 +207,7 @@ def long_log_stream(rng, quick):
 
 def run(ctx):
     rng = ctx.rng
-    srcs = long_log_stream(rng, ctx.tier == "quick") + overflow_stream() + grammar_stream(rng, ctx.tier == "quick") + char_context_stream(ctx.tier == "quick")
+    srcs = endless_loop_stream() + long_log_stream(rng, ctx.tier == "quick") + overflow_stream() + grammar_stream(rng, ctx.tier == "quick") + char_context_stream(ctx.tier == "quick")
     ctx.dist["grammar_and_char_streams"] = len(srcs)
     if ctx.tier == "quick":
         srcs += ["".join(p) for p in itertools.product(FRAGS, repeat=1)]
